@@ -26,7 +26,10 @@ static _Atomic(hnode_t*) cell[NCELL];
 static _Atomic(hazard_pointer_thread_record_t*) hp_head;
 static hazard_pointer_thread_record_t* rec[MAXTH + 1];
 /* node pool with shuffled addresses */
-static hnode_t* pool;
+static hnode_t* pool_lo;
+static hnode_t* pool_hi;
+static int n_lo; /* nodes [0,n_lo) live in the ordinary heap, [n_lo,NPOOL) more than 2 GiB above them */
+static NS hnode_t* NODE(int i) { return i < n_lo ? &pool_lo[i] : &pool_hi[i - n_lo]; }
 static int order[NPOOL], next_fresh;
 static hnode_t* free_list[NPOOL];
 static int nfree;
@@ -45,7 +48,12 @@ static unsigned scan_gen[MAXTH + 1][NPOOL];
 static int retired_total, reclaimed_total, protected_retire_seen;
 static long next_id = 1;
 
-static NS int idx_of(const void* p) { return (int)((const hnode_t*)p - pool); }
+static NS int idx_of(const void* p) {
+  const hnode_t* n = p;
+  if (n >= pool_lo && n < pool_lo + n_lo) return (int)(n - pool_lo);
+  if (n >= pool_hi && n < pool_hi + (NPOOL - n_lo)) return n_lo + (int)(n - pool_hi);
+  return -1;
+}
 static NS int rec_index(void* h) {
   for (int t = 0; t <= nth; t++)
     if (rec[t] == h) return t;
@@ -58,20 +66,20 @@ static NS void reclaim_cb(void* gc_data, hazard_node_t* hz) {
   if (nstate[i] != NS_RETIRED) sim_violation("C14-reclaim-not-retired", "node %d handed to the reclamation callback in ghost state %d (3 = already reclaimed)", i, nstate[i]);
   for (int t = 0; t <= nth; t++)
     for (int s = 0; s < K; s++)
-      if (slot_ptr[t][s] == &pool[i] && slot_valid[t][s] && slot_valid[t][s] < retire_stamp[i])
+      if (slot_ptr[t][s] == NODE(i) && slot_valid[t][s] && slot_valid[t][s] < retire_stamp[i])
         sim_violation("C14-reclaimed-while-protected", "node %d reclaimed although record %d slot %d holds a hazard pointer to it that was validated (stamp %lu) before the retirement (stamp %lu)", i, t,
                       s, (unsigned long)slot_valid[t][s], (unsigned long)retire_stamp[i]);
   nstate[i] = NS_RECLAIMED;
   gen[i]++;
   sim_trace("reclaim node %d", i);
-  memset(&pool[i].id, 0xFB, sizeof pool[i].id);
-  free_list[nfree++] = &pool[i];
+  memset(&NODE(i)->id, 0xFB, sizeof NODE(i)->id);
+  free_list[nfree++] = NODE(i);
   reclaimed_total++;
 }
 static NS hnode_t* node_new(void) {
   hnode_t* n;
   if (nfree && (next_fresh >= NPOOL || (clk & 1))) n = free_list[--nfree];
-  else if (next_fresh < NPOOL) n = &pool[order[next_fresh++]];
+  else if (next_fresh < NPOOL) n = NODE(order[next_fresh++]);
   else if (nfree) n = free_list[--nfree];
   else return NULL;
   int i = idx_of(n);
@@ -213,8 +221,10 @@ void h_run(void) {
     }
     total += prog[t].n;
   }
-  sim_describe("records=%d(+1) slots=%d cells=%d ops=%d late_mask=%x preempt=1/%d", nth, K, ncell, total, late_mask, c.preempt_inv);
-  pool = calloc(NPOOL, sizeof(hnode_t));
+  n_lo = wl_pct(50) ? NPOOL : wl_int(1, NPOOL - 1);
+  sim_describe("records=%d(+1) slots=%d cells=%d ops=%d late_mask=%x nodes_far_apart=%d preempt=1/%d", nth, K, ncell, total, late_mask, NPOOL - n_lo, c.preempt_inv);
+  pool_lo = calloc(NPOOL, sizeof(hnode_t));
+  pool_hi = sim_alloc_high(NPOOL * sizeof(hnode_t));
   for (int i = 0; i < NPOOL; i++) order[i] = i;
   for (int i = NPOOL - 1; i > 0; i--) { /* shuffled addresses: sorted-pointer order differs from retire order */
     int j = wl_int(0, i);
